@@ -1,8 +1,8 @@
-\* quick exhaustive design run of the property-respecting design (no deviation), EventSystem used directly; bin/checks_conc.py generates its variants (design_configs)
+\* thorough: 3 clients (3 channel generations), all interleavings
 SPECIFICATION MCSpec
 CONSTANTS
   NTopics = 1
-  NClients = 2
+  NClients = 3
   Rounds = 1
   MaxEvents = 1
   MaxPolls = 0
